@@ -169,7 +169,7 @@ func runSelftest(id string) []map[string]any {
 	out := []map[string]any{}
 	dirs, _ := filepath.Glob(filepath.Join(verifDir, "seeded", "*", "meta.json"))
 	sort.Strings(dirs)
-	deadline := time.Now().Add(20 * time.Minute)
+	deadline := time.Now().Add(6 * time.Minute)
 	self, err := os.Executable()
 	if err != nil {
 		return out
@@ -253,7 +253,7 @@ func runNeutralSelftest(id string) []map[string]any {
 	if err != nil {
 		return out
 	}
-	deadline := time.Now().Add(10 * time.Minute)
+	deadline := time.Now().Add(3 * time.Minute)
 	for _, mf := range metas {
 		b, err := os.ReadFile(mf)
 		if err != nil {
